@@ -44,6 +44,11 @@ def incL (m : Map (NI × Nat) Nat) (ni : NI) (l : List Nat) : Map (NI × Nat) Na
 def decL (m : Map (NI × Nat) Nat) (ni : NI) (l : List Nat) : Map (NI × Nat) Nat :=
   l.foldl (fun m n => dec m (ni, n)) m
 
+/-- distinct elements (the installed group is a map keyed by index) -/
+def dedup : List Nat → List Nat
+  | [] => []
+  | a :: t => if t.contains a then dedup t else a :: dedup t
+
 /-- network instance in which a top-level entry's group is looked up -/
 def tgtNI (ni : NI) (p : Payload) : NI := if p.grpNI = "" then ni else p.grpNI
 
@@ -58,7 +63,7 @@ def incG (s : Rib) (ni : NI) (p : Payload) : Rib :=
 def unref (s : Rib) (ni : NI) (key : Key) (p : Payload) : Rib :=
   match key with
   | .nh _ => s
-  | .nhg _ => { s with nhRef := decL s.nhRef ni p.nhs.eraseDups }
+  | .nhg _ => { s with nhRef := decL s.nhRef ni (dedup p.nhs) }
   | _ => decG s ni p
 
 /-- counter maintenance of an install (`handleReferences` / `handleNHGReferences`) -/
@@ -66,10 +71,10 @@ def reref (s : Rib) (ni : NI) (key : Key) (old : Option Payload) (new : Payload)
   match key with
   | .nh _ => s
   | .nhg _ =>
-    let m := incL s.nhRef ni new.nhs.eraseDups
+    let m := incL s.nhRef ni (dedup new.nhs)
     { s with nhRef := match old with
                       | none => m
-                      | some o => decL m ni o.nhs.eraseDups }
+                      | some o => decL m ni (dedup o.nhs) }
   | _ =>
     match old with
     | none => incG s ni new
